@@ -240,13 +240,15 @@ func c09Bls(c *kc.Ctx, sd *blsSide, rng *kc.Rng, b *blsBatch, iters int) {
 			buf := append([]byte{}, mm.m...)
 			other := append([]byte{}, mm.m...)
 			other[rng.Intn(len(other))] ^= byte(1 + rng.Intn(255))
-			sd.msg(other, false, rng)
+			om := sd.msg(other, false, rng)
 			Xh := blsMulBase(sd.keyG, q, x)
 			v1 := kc.Recover(func() string { return blsErrStr(sd.bls.Verify(Xh, buf, sig)) })
 			copy(buf, other)
 			v2 := kc.Recover(func() string { return blsErrStr(sd.bls.Verify(Xh, buf, sig)) })
 			c.Eval(2)
-			if v1 != "true" || v2 != "false" {
+			// the signature x·H(m) is valid for the other message exactly when x·H(other) is the same point (x = 0)
+			want2 := fmt.Sprint(honest.Equal(blsMul(sd.sigG, q, x, om.H)))
+			if v1 != "true" || v2 != want2 {
 				blsViolation(c, "bls.Verify/reused-message-buffer", fmt.Sprintf("%s: Verify(m)=%s, then Verify of another message written into the same buffer = %s", sd.name, v1, v2),
 					map[string]string{"side": sd.name, "x": kc.HexN(x), "msg": kc.HexB(mm.m), "other": kc.HexB(other), "sig": kc.HexB(sig)})
 			}
